@@ -1,4 +1,5 @@
 import Rip.Model.Cache
+import Rip.Model.SeekIndex
 import Rip.Model.Proto
 namespace Rip.Driver.C04
 open Rip.Proto Rip.Cache
@@ -23,5 +24,26 @@ def handle (rest : String) : String :=
     let c := cursorTruth fs
     let seqs := (c.cursors.map (·.2)).foldl (fun acc x => insertSorted x acc) []
     s!"active={showOptNat c.active} cursors=[{",".intercalate (seqs.map toString)}] decisions=[{",".intercalate ((selectionTruth fs l).map toString)}]"
+
+/-! `c04s <checkUse> <stride> <budget> <fromSeq> <limit> <hasFile> <n> (seq off)* <m> (seq msg keep len)*`
+→ what `window_recent_messages_v1_from_seq` answers over that sidecar and that seek-index file -/
+namespace Seek
+open Rip.SeekIndex
+
+def pEntry : P Entry := do let s ← nat; let o ← nat; pure ⟨s, o⟩
+def pLine : P Line := do let s ← nat; let m ← bool; let k ← bool; let l ← nat; pure ⟨s, m, k, l⟩
+
+def handle (rest : String) : String :=
+  match runP (do
+      let cu ← bool; let stride ← nat; let budget ← nat; let f ← nat; let l ← nat
+      let has ← bool; let es ← listOf pEntry; let ls ← listOf pLine
+      pure (cu, stride, budget, f, l, has, es, ls)) rest with
+  | none => "bad-case"
+  | some (cu, stride, budget, f, l, has, es, ls) =>
+    match window cu stride budget ls (if has then some es else none) f l with
+    | none => "err"
+    | some r => s!"ok [{",".intercalate (r.map toString)}]"
+
+end Seek
 
 end Rip.Driver.C04
